@@ -4,6 +4,7 @@ import (
 	"bytes"
 	"context"
 	"encoding"
+	"encoding/base64"
 	stdjson "encoding/json"
 	"fmt"
 	"math/rand"
@@ -680,6 +681,92 @@ func c12StreamCase(c *rt.Ctx, sub int, r *rand.Rand) {
 	}
 }
 
+// c12ReuseCase: one destination decoded into again and again (Unmarshal, and one Decoder over the
+// concatenated documents). A []byte member decoded from a base64 string is a fresh array each time
+// (as in encoding/json), so a byte slice the caller took out of the destination after an earlier
+// call - or had put there before the first one - keeps its contents.
+func c12ReuseCase(c *rt.Ctx, sub int, r *rand.Rand) {
+	payload := func() []byte {
+		n := []int{0, 1, 3, 8, 24, 40, 64, 100}[r.Intn(8)]
+		b := make([]byte, n)
+		for i := range b {
+			b[i] = byte(0x20 + r.Intn(90))
+		}
+		return b
+	}
+	type dstT struct {
+		A int
+		B []byte
+		P *[]byte
+		M map[string][]byte
+		L [][]byte
+		Z string
+	}
+	n := 3 + r.Intn(4)
+	var docs [][]byte
+	for i := 0; i < n; i++ {
+		e := func() string { return base64.StdEncoding.EncodeToString(payload()) }
+		docs = append(docs, []byte(fmt.Sprintf(`{"A":%d,"B":"%s","P":"%s","M":{"k":"%s"},"L":["%s","%s"],"Z":"z%d"}`, i, e(), e(), e(), e(), e(), i)))
+	}
+	for _, stream := range []bool{false, true} {
+		dst := &dstT{}
+		mine := []byte("caller-owned-array-0123456789-0123456789-0123456789-0123456789-0123456789-0123456789-0123456789-0123456789")
+		mineCopy := append([]byte{}, mine...)
+		dst.B = mine[:0] // spare capacity offered by the caller
+		var dec *gojson.Decoder
+		if stream {
+			dec = gojson.NewDecoder(bytes.NewReader(bytes.Join(docs, []byte("\n"))))
+		}
+		type kept struct {
+			h    []byte
+			copy []byte
+			who  string
+		}
+		var keep []kept
+		entry := "Unmarshal"
+		if stream {
+			entry = "Decoder"
+		}
+		for i, doc := range docs {
+			var err error
+			pan, _, _ := rt.Guard(func() {
+				if stream {
+					err = dec.Decode(dst)
+				} else {
+					err = gojson.Unmarshal(doc, dst)
+				}
+			})
+			c.Eval(1)
+			if pan || err != nil {
+				c.Obs("reuse_decode_errors", 1)
+				break
+			}
+			for _, k := range keep {
+				if !bytes.Equal(k.h, k.copy) {
+					c.Violate(rt.Violation{Monitor: "stream-stable", Entry: entry, Kind: "byte-slice-kept-from-earlier-decode-changed", Ctx: "same-destination:" + k.who,
+						Detail: fmt.Sprintf("after decode #%d into the same destination, the %s slice taken after an earlier decode changed from %s to %s", i, k.who, rt.Q(k.copy), rt.Q(k.h)), Sub: sub})
+					return
+				}
+			}
+			if !bytes.Equal(mine, mineCopy) {
+				c.Violate(rt.Violation{Monitor: "stream-stable", Entry: entry, Kind: "caller-array-written", Ctx: "same-destination:B",
+					Detail: fmt.Sprintf("the array behind the empty slice the caller had put into B was written: %s", rt.Q(mine)), Sub: sub})
+				return
+			}
+			keep = append(keep, kept{dst.B, append([]byte{}, dst.B...), "B"})
+			if dst.P != nil {
+				keep = append(keep, kept{*dst.P, append([]byte{}, *dst.P...), "P"})
+			}
+			keep = append(keep, kept{dst.M["k"], append([]byte{}, dst.M["k"]...), "M[k]"})
+			for _, l := range dst.L {
+				keep = append(keep, kept{l, append([]byte{}, l...), "L[i]"})
+			}
+		}
+		c.Obs("reuse_histories", 1)
+	}
+	c.NonTrivial("reuse", string(docs[0]))
+}
+
 type c12PreIn struct {
 	S string
 	L []int
@@ -831,6 +918,7 @@ func init() {
 					c12EncodeCase(c, k, r)
 				default:
 					c12StreamCase(c, k, r)
+					c12ReuseCase(c, k, r)
 				}
 			}
 			c.Sample(map[string]any{"decode_entries": entries, "example_doc": string(c12Doc(c.RNG(9)))})
